@@ -32,7 +32,10 @@ static void kernel_stub(u64 *number, unsigned exponent, bool negk) {
     g_out = vf_u64();            // arbitrary result word (drawn last on the tape: nothing symbolic is read after the call)
     *number = g_out;
 }
+static bool g_ref_too_big = false;      // set by the harness before the call: the numeral denotes a value >= 2^1024
 extern "C" void stub_p10pos(u64 *number, unsigned exponent) { kernel_stub(number, exponent, false); }
+// variant for a powerOfPositiveTen that reports overflow (bool result, false = not a finite double); selected by specs/C09.py
+extern "C" bool stub_p10pos_b(u64 *number, unsigned exponent) { kernel_stub(number, exponent, false); return !g_ref_too_big; }
 extern "C" void stub_p10neg(u64 *number, unsigned exponent) { kernel_stub(number, exponent, true); }
 // Is this build running with the stubs in place?  (CBMC: yes; native replay / translator self-check: the real kernels run.)
 static bool stubbed() {
@@ -132,6 +135,7 @@ extern "C" void h_scan() {
     vf_assume(zero_exp);
 #endif
     const bool st = stubbed();
+    g_ref_too_big = too_big;
     QNumber64 num;
     SizeT off = 0;
     const QNumberType kind = Digit::stringToNumber(num, (const C *)b, off, SizeT(LEN));
@@ -276,6 +280,7 @@ extern "C" void h_exp() {
     vf_assume(wraps);
 #endif
     const bool st = stubbed();
+    g_ref_too_big = (ESIGN != 1) && (EX >= 309U);
     QNumber64 num;
     SizeT off = 0;
     const QNumberType kind = Digit::StringToNumber(num, (const C *)b, off, SizeT(n));
